@@ -90,13 +90,24 @@ def main():
         report["existing_tests_with_change"] = suite
     finally:
         subprocess.run(["git", "-C", "/repo", "worktree", "remove", "--force", wt], capture_output=True)
-    # ---- our checks against the change, applied to /repo itself and undone straight afterwards
-    st = subprocess.run(["git", "-C", "/repo", "status", "--porcelain"], capture_output=True, text=True).stdout.strip()
-    assert st == "", "/repo is not clean: " + st
+    # ---- our checks against the change. Default: applied to /repo itself and undone straight
+    # afterwards. With SEED_SCRATCH=1 (when something else is building from /repo at the same time)
+    # the patch goes to a scratch worktree that the driver is pointed at (VERIF_REPO), with its own
+    # build directory.
+    scratch = os.environ.get("SEED_SCRATCH")
+    target = "/repo"
     verdicts = {}
     try:
-        subprocess.run(["git", "-C", "/repo", "apply", out + "/patch.diff"], check=True)
         env = dict(os.environ, VERIF_EVID_DIR="/tmp/seed-evid", VERIF_REPLAY_DIR="/tmp/seed-replays")
+        if scratch:
+            target = "/tmp/svr-%s" % sid
+            subprocess.run(["git", "-C", "/repo", "worktree", "remove", "--force", target], capture_output=True)
+            subprocess.run(["git", "-C", "/repo", "worktree", "add", "--detach", "-f", target, "HEAD"], check=True, capture_output=True)
+            env.update(VERIF_REPO=target, VERIF_BUILD_DIR="/tmp/svr-build-%s" % sid)
+        else:
+            st = subprocess.run(["git", "-C", "/repo", "status", "--porcelain"], capture_output=True, text=True).stdout.strip()
+            assert st == "", "/repo is not clean: " + st
+        subprocess.run(["git", "-C", target, "apply", out + "/patch.diff"], check=True)
         for c in checks:
             t0 = time.time()
             r = subprocess.run([os.path.join(ROOT, "check"), c, "quick"], cwd=ROOT, env=env, capture_output=True, text=True)
@@ -108,8 +119,13 @@ def main():
             verdicts[c] = dict(verdict={0: "MISSED", 1: "caught", 2: "inconclusive"}.get(r.returncode, str(r.returncode)),
                                seconds=round(time.time() - t0, 1), first_violation_line=first)
     finally:
-        subprocess.run(["git", "-C", "/repo", "checkout", "--", "."], check=True)
+        if scratch:
+            subprocess.run(["git", "-C", "/repo", "worktree", "remove", "--force", target], capture_output=True)
+            shutil.rmtree("/tmp/svr-build-%s" % sid, ignore_errors=True)
+        else:
+            subprocess.run(["git", "-C", "/repo", "checkout", "--", "."], check=True)
     report["checks"] = verdicts
+    report["applied_to"] = "scratch worktree (driver override VERIF_REPO)" if scratch else "/repo (git apply, then git checkout -- .)"
     # ---- keep it
     dst = os.path.join(ROOT, "seeded", sid + suffix)
     os.makedirs(dst, exist_ok=True)
